@@ -487,6 +487,12 @@ class StackInterp:
         outer = self
 
         class I(Interp):
+            def x_cast(self, env, ins, fr):
+                Interp.x_cast(self, env, ins, fr)
+                v = env.get(ins)
+                if v.__class__.__name__ == "Poison" and "float to int" in str(v.reason):
+                    outer.trunc_poison = True
+
             def call(self, f, args):
                 sz = frame.get(getattr(f, "name", None), 0)
                 outer.cur += sz
@@ -498,9 +504,11 @@ class StackInterp:
                     outer.cur -= sz
         self.it = I(module, **kw)
         self.cur = self.peak = 0
+        self.trunc_poison = False
 
     def run(self, fname, args, **kw):
         self.cur = self.peak = 0
+        self.trunc_poison = False
         return self.it.run(fname, args, **kw)
 
 
@@ -598,6 +606,11 @@ def prepare_module(module, argv, mon, case, kind, replay=None, reducible_require
                 continue
             if sit.peak > STACK_LIMIT:
                 mon.discard("needs more than ppci2wasm's virtual stack")
+                continue
+            if sit.trunc_poison:
+                # refinterp makes an out-of-range float -> int conversion a poison value that only
+                # matters when observed; wasm's trunc traps at once.  Undefined in C and in the IR.
+                mon.discard("reference run converts an out-of-range float to int")
                 continue
             runs.append({"f": fname, "vec": vec, "ptys": ptys, "rty": rty, "ref": ref})
     if not runs:
